@@ -256,3 +256,8 @@ Definition strategy_match (st : strategy) (c : candidate) (re1 : bytes -> bool) 
   end.
 
 End WithRegex.
+
+Arguments mk_multi {L}.
+Arguments m_literals {L}.
+Arguments m_map {L}.
+Arguments m_longest {L}.
